@@ -135,3 +135,50 @@ package server
 //@   loop 1 invariant lexer != nil && fresh(lexer) && LexInv(lexer) && Pos16(lexer) && lexer.input == content
 //@   loop 1 invariant forall i int :: 0 <= i && i < len(tokens) ==> tokens[i].tokenType <= 12
 //@   loop 1 decreases len(content) - lexer.pos
+
+// ---- C01: the document mirror (Server.documents is a sync.Map: ghost map from interface values to interface values) ----
+
+//@ specdef docStep(c string, ch protocol.TextDocumentContentChangeEvent) string := ite(ch.Range.Start.Line == 0 && ch.Range.Start.Character == 0 && ch.Range.End.Line == 0 && ch.Range.End.Character == 0, ch.Text, applied(c, ch.Range.Start.Line, ch.Range.Start.Character, ch.Range.End.Line, ch.Range.End.Character, ch.Text))
+//@ specdef docFold(c string, chs []protocol.TextDocumentContentChangeEvent, i int) string := ite(i <= 0, c, docStep(docFold(c, chs, i - 1), chs[i - 1]))
+
+//@ func isFullChange
+//@   props C01
+//@   effects none
+//@   ensures [spec] result <==> (r.Start.Line == 0 && r.Start.Character == 0 && r.End.Line == 0 && r.End.Character == 0)
+
+//@ func applyChange
+//@   props C01
+//@   ensures [C01:splice] result == applied(content, r.Start.Line, r.Start.Character, r.End.Line, r.End.Character, text)
+
+//@ func (*Server).GetDocument
+//@   props C01
+//@   effects none
+//@   requires s != nil
+//@   ensures [found] result1 <==> (smhas(s.documents, uri) && typeis(smget(s.documents, uri), string))
+//@   ensures [text] result1 ==> result0 == as(smget(s.documents, uri), string)
+
+//@ func (*Server).StoreDocument
+//@   props C01
+//@   requires s != nil
+//@   ensures [stored] smhas(s.documents, uri) && smget(s.documents, uri) == box(content)
+//@   modifies s.documents
+
+//@ func (*Server).DidOpen
+//@   props C01
+//@   requires s != nil && params != nil
+//@   ensures [C01:open] smhas(s.documents, params.TextDocument.URI) && smget(s.documents, params.TextDocument.URI) == box(params.TextDocument.Text)
+//@   modifies s.documents
+
+//@ func (*Server).DidChange
+//@   props C01
+//@   requires s != nil && params != nil
+//@   ensures [C01:fold] old(smhas(s.documents, params.TextDocument.URI)) && typeis(old(smget(s.documents, params.TextDocument.URI)), string) ==> smhas(s.documents, params.TextDocument.URI) && smget(s.documents, params.TextDocument.URI) == box(docFold(as(old(smget(s.documents, params.TextDocument.URI)), string), params.ContentChanges, len(params.ContentChanges)))
+//@   ensures [C01:absent] !old(smhas(s.documents, params.TextDocument.URI)) ==> !smhas(s.documents, params.TextDocument.URI)
+//@   modifies s.documents
+//@   loop 1 invariant 0 - 1 <= rangeindex && rangeindex <= len(params.ContentChanges) - 1
+//@   loop 1 invariant content == docFold(as(old(smget(s.documents, params.TextDocument.URI)), string), params.ContentChanges, rangeindex + 1)
+//@   loop 1 decreases len(params.ContentChanges) - rangeindex
+
+// The statement of C01 is about the wire: a change that carries a range key is a ranged change, whatever the range is.
+// Assumed contract of the protocol decoder: a change without a range key decodes to the zero Range.
+//@ lemma [C01] wire_step(c string, hasRange bool, ch protocol.TextDocumentContentChangeEvent) := (!hasRange ==> (ch.Range.Start.Line == 0 && ch.Range.Start.Character == 0 && ch.Range.End.Line == 0 && ch.Range.End.Character == 0)) ==> docStep(c, ch) == ite(hasRange, applied(c, ch.Range.Start.Line, ch.Range.Start.Character, ch.Range.End.Line, ch.Range.End.Character, ch.Text), ch.Text)
